@@ -1089,6 +1089,14 @@ def unify_types(t1: tp.Type, t2: tp.Type, factory,
             return {}
 
         if t_arg2.is_wildcard():
+            if t_arg1.variance != t_arg2.variance:
+                # Projections of different variance can never be identical.
+                return {}
+            if t_arg1.bound is None or t_arg2.bound is None:
+                # Star projections carry nothing to unify.
+                if t_arg1 != t_arg2:
+                    return {}
+                continue
             t_arg2 = t_arg2.bound
             t_arg1 = t_arg1.bound
 
